@@ -11,7 +11,8 @@ corr   : (1) the generated site table as Lean sees it  vs  the extractor's table
 oracle : independent of Lean — the same call recipe / generated program built and computed under every configuration
          variant (global default, config.set, explicit equal Spec, mixed explicit-equal and default inputs, other
          work_dir, MemoryStore / LocalStore intermediate store, compressor none / explicit codec, reserved_mem shifted,
-         executor single-threaded / threads, larger allowed_mem): same phase and exception type, same values.
+         executor single-threaded / threads, larger allowed_mem, explicit Spec under an unusable global config): same phase
+         and (before execution) exception type, same values.
          Tight sweep: with allowed−reserved fixed at exactly what the plan needs (and one byte less), every storage /
          compressor / executor / reserved-shift variant gives the same decision.
 """
@@ -95,6 +96,10 @@ def make_variants(tmp, headroom=None, reserved=DEFAULT_RESERVED):
         Variant("reserved_shift", spec=S(allowed_mem=allowed + 333_000_000, reserved_mem=reserved + 333_000_000)),
         Variant("exec_single", spec=S(executor_name="single-threaded", **base)),
         Variant("exec_threads", spec=S(executor=create_executor("threads"), **base)),
+        # an explicit Spec while the global default config is unusable: nothing may leak in from the global config
+        Variant("poisoned_config", spec=S(work_dir=os.path.join(tmp, "wd-p"), **base),
+                config={"spec.allowed_mem": 1, "spec.reserved_mem": 0, "spec.work_dir": "/proc/c19-not-writable",
+                        "spec.zarr_compressor": {"name": "c19-no-such-codec", "configuration": {}}}),
     ]
     if headroom is None:
         vs += [
@@ -193,9 +198,26 @@ def probe_xarray_unwrap(ctx, tmp):
     compare(ctx, case, base, got, v.name)
 
 
-def compare(ctx, case, base, got, vname):
-    """Compare an outcome with the baseline outcome; report through ctx.fail."""
+def compare(ctx, case, base, got, vname, rerun=None):
+    """Compare an outcome with the baseline outcome; report through ctx.fail.  `rerun() -> (base outcome, variant outcome)`
+    is used when both sides die inside a task with different exception types: which task of a doomed computation fails
+    first depends on the thread schedule, so the legal outcome is a set; the case is a failure only if each side is
+    stable over repeated runs and the two still differ."""
     c = dict(case, variant=vname)
+    if rerun is not None and base["phase"] == got["phase"] == "execute" and base["exc"] != got["exc"]:
+        seen_b, seen_g = {base["exc"]}, {got["exc"]}
+        for _ in range(3):
+            b2, g2 = rerun()
+            seen_b.add(b2["exc"] if b2["phase"] == "execute" else b2["phase"])
+            seen_g.add(g2["exc"] if g2["phase"] == "execute" else g2["phase"])
+        if len(seen_b) > 1 or len(seen_g) > 1 or seen_b & seen_g:
+            ctx.dist["schedule-dependent-task-failure"] += 1
+            return True
+    if base["phase"] == got["phase"] == "execute" and base["exc"] != got["exc"]:
+        # both computations die inside a task; which of several doomed tasks is reported first depends on the executor's
+        # order (threads vs single-threaded), not on the resources: same decision, phase compared, type recorded only
+        ctx.dist["execute-phase-type-differs(%s/%s)" % (base["exc"], got["exc"])] += 1
+        return True
     if (base["phase"], base["exc"]) != (got["phase"], got["exc"]):
         ctx.fail("acceptance differs: baseline (global default config) -> %s, variant %s -> %s" % (
             _show(base), vname, _show(got)), c, key=classify(c, base, got))
@@ -258,7 +280,8 @@ def sweep(ctx, cases, variants, sample=None, kind="sweep"):
             label = case.get("recipe") or ("program:" + "+".join(case.get("families", [])[:3]))
             ctx.count({"case": label if "recipe" in case else case, "variant": v.name, "baseline": base["phase"]},
                       nontrivial=True, kind="%s:%s:%s" % (kind, v.name, base["phase"]))
-            compare(ctx, case, base, got, v.name)
+            compare(ctx, case, base, got, v.name,
+                    rerun=lambda v=v: (run_case(fn, base_v, execute=_execute(case)), run_case(fn, v, execute=_execute(case))))
 
 
 def tight_sweep(ctx, cases, tmp, sample=None):
@@ -280,7 +303,8 @@ def tight_sweep(ctx, cases, tmp, sample=None):
                 got = run_case(fn, v)
                 ctx.count({"case": case.get("recipe", "program"), "variant": v.name, "headroom": h, "baseline": base["phase"]},
                           nontrivial=True, kind="tight:%s:%s" % ("exact" if delta == 0 else "minus1", base["phase"]))
-                compare(ctx, dict(case, headroom=h, reserved=1_000_000), base, got, v.name)
+                compare(ctx, dict(case, headroom=h, reserved=1_000_000), base, got, v.name,
+                        rerun=lambda v=v, vs=vs: (run_case(fn, vs[0]), run_case(fn, v)))
             if delta == 0 and base["phase"] == "plan":
                 # allowed memory that sufficed under the generous configuration: monotonicity says a plan-phase refusal at
                 # exactly the needed headroom can only come from a plan that changed with the headroom (rechunk, qr)
@@ -603,7 +627,7 @@ def oracle(ctx, n_programs=None, sample="auto"):
         sweep(ctx, recipe_cases(), variants, sample=sample, kind="recipe")
         tm["oracle_recipes"] = round(time.time() - t0, 1)
         t0 = time.time()
-        n = n_programs if n_programs is not None else ctx.budget(20, 250)
+        n = n_programs if n_programs is not None else ctx.budget(20, 60)
         progs = [program_case(ctx.rng) for _ in range(n)]
         sweep(ctx, progs, variants, sample=sample, kind="program")
         tm["oracle_programs"] = round(time.time() - t0, 1)
@@ -612,7 +636,7 @@ def oracle(ctx, n_programs=None, sample="auto"):
         tight = [({"recipe": r}, by_name(r)[2]) for r in TIGHT_RECIPES]
         if ctx.tier == "quick":
             tight = ctx.rng.sample(tight, 3)
-        tight += [program_case(ctx.rng) for _ in range(ctx.budget(2, 30))]
+        tight += [program_case(ctx.rng) for _ in range(ctx.budget(2, 10))]
         tight_sweep(ctx, tight, tmp, sample=4 if ctx.tier == "quick" else None)
         tm["oracle_tight"] = round(time.time() - t0, 1)
     finally:
@@ -642,7 +666,7 @@ def search(ctx):
         sweep(ctx, recipe_cases(), variants, sample=None, kind="search-recipe")
         if any(not f["key"] for f in ctx.failures):
             return
-        sweep(ctx, [program_case(ctx.rng) for _ in range(ctx.budget(40, 150))], variants, sample=None, kind="search-program")
+        sweep(ctx, [program_case(ctx.rng) for _ in range(ctx.budget(40, 80))], variants, sample=None, kind="search-program")
         from c19_recipes import by_name
         tight_sweep(ctx, [({"recipe": r}, by_name(r)[2]) for r in TIGHT_RECIPES], tmp)
     finally:
